@@ -454,6 +454,76 @@ def _l_rule(cx, stmts, params_of):
     cx.fail(st, 'statement outside the grammar')
 
 
+def psop_rule(tree, src):
+    """ProductSpaceOperator.adjoint: the COO transposition, statement by statement"""
+    cls = _find_class(tree.body, 'ProductSpaceOperator')
+    fn = _adjoint_def(cls) if cls is not None else None
+    if fn is None:
+        raise TranslateError('%s: ProductSpaceOperator.adjoint not found' % src)
+    cx = Ctx(src, 'ProductSpaceOperator')
+    body = _strip(fn.body)
+    st = {}
+    ret = None
+    for node in body:
+        if isinstance(node, ast.Assign) and len(node.targets) == 1:
+            t = node.targets[0]
+            if isinstance(t, ast.Name):
+                st[t.id] = node.value
+                continue
+            if isinstance(t, ast.Subscript) and isinstance(t.value, ast.Name) and ast.unparse(t.slice) == ':':
+                st[t.value.id + '[:]'] = node.value
+                continue
+        if isinstance(node, ast.Return) and node is body[-1]:
+            ret = node.value
+            continue
+        cx.fail(node, 'statement outside the grammar')
+    def need(name):
+        if name not in st:
+            cx.fail(None, 'missing binding %s' % name)
+        return st[name]
+    # entries
+    u = ast.unparse(need('adjoint_ops'))
+    if u == '[op.adjoint for op in self.ops.data]':
+        adj_entries = 'true'
+    elif u in ('[op for op in self.ops.data]', 'list(self.ops.data)'):
+        adj_entries = 'false'
+    else:
+        cx.fail(st['adjoint_ops'], 'entries outside the grammar')
+    if ast.unparse(need('data')) != 'np.empty(len(adjoint_ops), dtype=object)' or \
+            ast.unparse(need('data[:]')) != 'adjoint_ops':
+        cx.fail(st.get('data'), 'data array outside the grammar')
+    ind = need('indices')
+    if not (isinstance(ind, ast.List) and len(ind.elts) == 2):
+        cx.fail(ind, 'indices outside the grammar')
+    srcs = []
+    for e in ind.elts:
+        ue = ast.unparse(e)
+        if ue == 'self.ops.row':
+            srcs.append('CooRow')
+        elif ue == 'self.ops.col':
+            srcs.append('CooCol')
+        else:
+            cx.fail(e, 'index array outside the grammar')
+    ush = ast.unparse(need('shape'))
+    if ush == '(self.ops.shape[1], self.ops.shape[0])':
+        swapped = 'true'
+    elif ush in ('(self.ops.shape[0], self.ops.shape[1])', 'self.ops.shape'):
+        swapped = 'false'
+    else:
+        cx.fail(st['shape'], 'shape outside the grammar')
+    if ast.unparse(need('adj_matrix')) != 'COOMatrix(data, indices, shape)':
+        cx.fail(st['adj_matrix'], 'COOMatrix call outside the grammar')
+    if not (isinstance(ret, ast.Call) and isinstance(ret.func, ast.Name) and ret.func.id == 'ProductSpaceOperator'
+            and len(ret.args) == 3 and not ret.keywords and ast.unparse(ret.args[0]) == 'adj_matrix'):
+        cx.fail(ret, 'return outside the grammar')
+    d, r = _space(cx, ret.args[1]), _space(cx, ret.args[2])
+    if d is None or r is None:
+        cx.fail(ret, 'space arguments outside the grammar')
+    return ('Definition psop_rule : psrule :=\n  {| ps_adj_entries := %s; ps_row_src := %s; ps_col_src := %s; '
+            'ps_shape_swapped := %s; ps_domain := %s; ps_range := %s |}.'
+            % (adj_entries, srcs[0], srcs[1], swapped, d, r))
+
+
 def translate():
     trees = {}
     for k, rel in FILES.items():
@@ -518,6 +588,8 @@ def translate():
         rule = _l_rule(cx, body, params_of)
         rows.append('  | %s => %s' % (g, rule))
     out.append('Definition leaf_rules (c : lcls) : lrule :=\n  match c with\n' + '\n'.join(rows) + '\n  end.')
+    out.append('')
+    out.append(psop_rule(trees['pspace'], FILES['pspace']))
     return '\n'.join(out) + '\n'
 
 
